@@ -39,6 +39,8 @@ struct TState {
     status: Status,
     woken: Option<WokenPtr>,
     events: Vec<String>,
+    /// pending futures dropped (`acancel` or program end) since the last reply
+    cancels: u64,
 }
 
 struct Inner {
@@ -67,6 +69,29 @@ thread_local! {
     static SEG_EVENTS: RefCell<Vec<String>> = const { RefCell::new(Vec::new()) };
     /// number of eviction candidates handed to this thread's callbacks so far
     static CANDS: Cell<u64> = const { Cell::new(0) };
+    /// pending futures dropped in the running segment
+    static SEG_CANCELS: Cell<u64> = const { Cell::new(0) };
+}
+
+/// what a slot of a worker holds
+enum Slot {
+    Empty,
+    Guard(GuardBox),
+    Pending(LockFut),
+}
+
+impl Slot {
+    /// drop the guard / cancel the pending future
+    fn release(&mut self) {
+        match std::mem::replace(self, Slot::Empty) {
+            Slot::Empty => {}
+            Slot::Guard(g) => drop(g),
+            Slot::Pending(f) => {
+                SEG_CANCELS.with(|c| c.set(c.get() + 1));
+                drop(f);
+            }
+        }
+    }
 }
 
 /// called on a worker thread
@@ -86,6 +111,7 @@ impl WorkerHook {
         let evs = SEG_EVENTS.with(|v| std::mem::take(&mut *v.borrow_mut()));
         let ts = &mut g.threads[self.t];
         ts.events.extend(evs);
+        ts.cancels += SEG_CANCELS.with(|c| c.replace(0));
         ts.status = status;
         ts.woken = woken;
         g.turn = None;
@@ -123,7 +149,7 @@ impl Hook for WorkerHook {
     }
 }
 
-fn run_program(prog: &[Stmt], slots: &mut Vec<Option<GuardBox>>, cont: &dyn Container, kind: Kind, t: usize) {
+fn run_program(prog: &[Stmt], slots: &mut Vec<Slot>, cont: &dyn Container, kind: Kind, t: usize) {
     for stmt in prog {
         match stmt {
             Stmt::Lock { var, k, soft } => {
@@ -148,29 +174,72 @@ fn run_program(prog: &[Stmt], slots: &mut Vec<Option<GuardBox>>, cont: &dyn Cont
                 }
                 match outcome {
                     LockOutcome::Guard(g) => {
-                        slots.push(Some(g));
+                        slots.push(Slot::Guard(g));
                         push_event(format!("lock{slot}=guard"));
                     }
                     LockOutcome::None => {
-                        slots.push(None);
+                        slots.push(Slot::Empty);
                         push_event(format!("lock{slot}=none"));
                     }
                     LockOutcome::Err => {
-                        slots.push(None);
+                        slots.push(Slot::Empty);
                         push_event(format!("lock{slot}=err"));
                     }
                 }
             }
+            Stmt::ALock { owned, k } => {
+                let slot = slots.len();
+                let var = if *owned { Variant::Ao } else { Variant::A };
+                let Some(mut fut) = cont.lock(var, *k, None) else {
+                    panic!("harness: variant not available");
+                };
+                // polled by hand, once: the thread never waits here (the hooks G and K are passed inside this poll)
+                match poll_once(fut.as_mut()) {
+                    std::task::Poll::Ready(LockOutcome::Guard(g)) => {
+                        slots.push(Slot::Guard(g));
+                        push_event(format!("lock{slot}=guard"));
+                    }
+                    std::task::Poll::Ready(_) => {
+                        slots.push(Slot::Empty);
+                        push_event(format!("lock{slot}=none"));
+                    }
+                    std::task::Poll::Pending => {
+                        slots.push(Slot::Pending(fut));
+                        push_event(format!("lock{slot}=pending"));
+                    }
+                }
+            }
+            Stmt::APoll(slot) => match slots.get_mut(*slot) {
+                Some(s @ Slot::Pending(_)) => {
+                    let Slot::Pending(fut) = s else { unreachable!() };
+                    match poll_once(fut.as_mut()) {
+                        std::task::Poll::Ready(LockOutcome::Guard(g)) => {
+                            *s = Slot::Guard(g);
+                            push_event(format!("poll{slot}=guard"));
+                        }
+                        std::task::Poll::Ready(_) => {
+                            *s = Slot::Empty;
+                            push_event(format!("poll{slot}=none"));
+                        }
+                        std::task::Poll::Pending => push_event(format!("poll{slot}=pending")),
+                    }
+                }
+                _ => push_event("skip".to_string()),
+            },
+            Stmt::ACancel(slot) => match slots.get_mut(*slot) {
+                Some(s @ Slot::Pending(_)) => s.release(),
+                _ => push_event("skip".to_string()),
+            },
             Stmt::Op(slot, op) => match slots.get_mut(*slot) {
-                Some(Some(g)) => {
+                Some(Slot::Guard(g)) => {
                     let r = op_reply(g.as_mut(), *op);
                     push_event(format!("op{slot}={r}"));
                 }
                 _ => push_event("skip".to_string()),
             },
-            Stmt::Drop(slot) => match slots.get_mut(*slot).and_then(|s| s.take()) {
-                Some(g) => drop(g),
-                None => push_event("skip".to_string()),
+            Stmt::Drop(slot) => match slots.get_mut(*slot) {
+                Some(s @ Slot::Guard(_)) => s.release(),
+                _ => push_event("skip".to_string()),
             },
             Stmt::Count => push_event(format!("count={}", cont.count())),
             Stmt::Keys => {
@@ -182,11 +251,9 @@ fn run_program(prog: &[Stmt], slots: &mut Vec<Option<GuardBox>>, cont: &dyn Cont
             }
         }
     }
-    // as if the program ended with a `drop` for every slot that still holds a guard
+    // the slots still in use are released in ascending order: a guard is dropped, a pending future cancelled
     for s in slots.iter_mut() {
-        if let Some(g) = s.take() {
-            drop(g);
-        }
+        s.release();
     }
 }
 
@@ -197,13 +264,13 @@ fn worker(shared: Arc<Shared>, t: usize, cont: Arc<dyn Container + Send + Sync>,
     });
     lockable::verif::install(Some(hook));
     take_panic();
-    let mut slots: Vec<Option<GuardBox>> = Vec::new();
+    let mut slots: Vec<Slot> = Vec::new();
     let r = catch_unwind(AssertUnwindSafe(|| run_program(&prog, &mut slots, &*cont, kind, t)));
     lockable::verif::install(None);
     if r.is_err() {
         let (msg, loc) = take_panic().unwrap_or_default();
         push_event(classify_panic(&msg, &loc));
-        // The guards this thread still holds are not released (that would pass further hook points):
+        // The guards and pending futures this thread still holds are not released (that would pass further hook points):
         // the thread is done. They point into the container, which therefore must stay alive.
         std::mem::forget(std::mem::take(&mut slots));
         std::mem::forget(Arc::clone(&cont));
@@ -213,6 +280,7 @@ fn worker(shared: Arc<Shared>, t: usize, cont: Arc<dyn Container + Send + Sync>,
     let evs = SEG_EVENTS.with(|v| std::mem::take(&mut *v.borrow_mut()));
     let ts = &mut g.threads[t];
     ts.events.extend(evs);
+    ts.cancels += SEG_CANCELS.with(|c| c.replace(0));
     ts.status = Status::D;
     ts.woken = None;
     g.turn = None;
@@ -243,6 +311,8 @@ pub struct StepInfo {
     pub status_before: char,
     pub notrunnable: bool,
     pub hang: bool,
+    /// pending futures whose drop was started in this step
+    pub cancels: u64,
 }
 
 impl SchedCase {
@@ -257,6 +327,7 @@ impl SchedCase {
                             status: Status::S,
                             woken: None,
                             events: Vec::new(),
+                            cancels: 0,
                         })
                         .collect(),
                     turn: None,
@@ -284,6 +355,7 @@ impl SchedCase {
             let ok = prog.iter().all(|s| match s {
                 Stmt::Lock { var, soft, .. } => matches!(var, Variant::B | Variant::T | Variant::A) && soft.is_none(),
                 Stmt::Op(..) => false,
+                Stmt::ALock { owned, .. } => !*owned,
                 _ => true,
             });
             if !ok {
@@ -380,6 +452,7 @@ impl SchedCase {
             return Some(format!("hang ; {}", self.statuses_str()));
         }
         let events = std::mem::take(&mut g.threads[t].events);
+        info.cancels = std::mem::take(&mut g.threads[t].cancels);
         drop(g);
         let evs = if events.is_empty() { "-".to_string() } else { events.join(",") };
         info.events = events;
